@@ -86,9 +86,32 @@ PROPS = {
         ],
         "expect_probes": [],
     },
+    "C03": {
+        "rule": "real iodined (check_ip on, and -c in ~15% of runs) with 0-2 real clients, 1-18 password-knowing model clients and 1-2 adversaries without the password over 90-240 virtual seconds: "
+                "20-200 adversarial protocol messages (every DNS-mode and raw command with own/foreign/out-of-range userids, wrong/stale/short/off-by-one hashes, DNS-login hash replayed as raw login), "
+                "wire-captured replays of legitimate logins/data/pings/raw logins from foreign addresses, spoofed-source requests and generated hostile commands. Oracle: independent authorisation model "
+                "(challenge issued, bound address, MD5 response verified with the reference implementation); every server tun write, address disclosure, accepted S/O/N, probe reply, raw login/ping reply and tunnel answer must belong to an "
+                "authorised request, and an unauthorised request leaves the security-relevant fields of every users[] entry unchanged. non-trivial = >=1 legitimate login and >=5 unauthorised requests processed; distinct = distinct run fingerprints",
+        "jobs": [
+            {"scen": "sessions", "sets": {}, "quick": 1800, "thorough": 120000},
+        ],
+        "expect_probes": ["c03.login_ok", "c03.vack", "c03.unauthorised_steps", "c03.srv_tun_writes", "c03.ip_disclosed", "c03.codec_switched", "c03.option_set", "c03.fragsize_set", "c03.rawlogin_ok"],
+    },
+    "C04": {
+        "rule": "same sessions scenario (subnets /8../30, server host position varied, up to 18 contenders for <=16 slots, sessions going silent and late joiners clustered 58-63 s after): oracles (1) a request naming a slot from a foreign "
+                "address (v4/v6, spoofed) leaves that session's full digest and last_pkt unchanged; (2) every downstream packet the reference reassembler completes (DNS fragments or raw frames) carries ip_dst == the address assigned "
+                "to the session it was sent to, and was not read when the owner was clearly expired; (3) no VACK names a slot whose session was active < 59 s ago, a session silent > 62 s is refused, assigned addresses are distinct, in-subnet and not the server's. "
+                "non-trivial as C03; distinct = distinct run fingerprints",
+        "jobs": [
+            {"scen": "sessions", "sets": {}, "quick": 1800, "thorough": 120000},
+        ],
+        "expect_probes": ["c04.foreign_requests", "c04.routed_packets", "c04.slot_reused", "c04.badip"],
+    },
 }
 
 LEVEL_TEXT = {
+    "C03": "Exploration: seeded adversarial histories against the real server in virtual time, judged by an independent authorisation model and by users[] snapshots around every processed datagram.",
+    "C04": "Exploration: seeded multi-session histories with spoofers and expiry/reuse timing, judged by a wire-level model of slot ownership and a reference downstream reassembler.",
     "C12": "Exploration by differential replay: exact determinism of the simulator turns the uncontrolled stale receive-buffer content into an explicit input; every pair must behave identically.",
     "C05": "Exploration: sanitizer-instrumented real server inside live sessions under generated hostile datagram sequences (millions of datagrams per thorough run); a clean batch is evidence of absence for the generated classes only.",
     "C06": "Exploration: sanitizer-instrumented real client with hostile answers substituted at every handshake step and in the tunnel; sampling over answer shapes and positions.",
@@ -108,8 +131,6 @@ NOT_APPLICABLE = {
 
 # properties whose check is not registered (yet); kept current so MANIFEST.not_applicable covers every unclaimed id
 NOT_CLAIMED = {
-    "C03": "check under construction in this session (auth scenario with model clients); not claimed until it is sound",
-    "C04": "check under construction in this session (multi-session scenario); not claimed until it is sound",
     "C08": "check under construction in this session; not claimed until it is sound",
     "C09": "check under construction in this session; not claimed until it is sound",
     "C11": "check under construction in this session (relay family); not claimed until it is sound",
